@@ -121,7 +121,8 @@ def run_impl(case):
                     r = cls(data=dec(it["data"]))
                     earlier_life(r, it.get("pre"))
                 last[it["def"]] = r
-                r.write(buf, st)
+                # (the documented wrapper methods write_register / read_register do the same as write / read)
+                (r.write_register if case.get("wrappers") and len(out) % 2 else r.write)(buf, st)
                 after = buf.tell()
                 w = buf.getvalue()[before:after]
                 out.append({"written": codec.enc_data(w), "tell_write": after, "matched": bool(cls.matches(w, st))})
@@ -133,7 +134,7 @@ def run_impl(case):
                     earlier_life(r, it["pre_read"])
                 else:
                     r = classes[it["def"]]()
-                r.read(buf, st)
+                (r.read_register if case.get("wrappers") and case["items"].index(it) % 2 == 0 else r.read)(buf, st)
                 o["read_data"] = [codec.enc_val(v) for v in r.data]
                 o["tell_read"] = buf.tell()
             res = {"regs": out}
@@ -379,6 +380,8 @@ def random_case(rng):
                 it["was"] = {"data": gen_data(rng, defs, it["def"], mode), "how": rng.choice(["item", "item", "slice", "setter"])}
                 if not any(o["op"] == "w" for o in it.get("pre") or []):
                     it["pre"] = (it.get("pre") or []) + [{"op": "w", "storage": rng.choice([case["storage"], case["storage"], "", "BINARY"])}]
+    if random.Random(len(items) * 7919 + ndefs).random() < 0.3:
+        case["wrappers"] = True  # every other record goes through write_register / read_register
     return case
 
 
